@@ -21,7 +21,7 @@ pub open spec fn mscan<'a, Null: Nullable, Ix: IndexType>(adj: Seq<Null>, d: boo
     if !(0 <= row < w && 0 <= col < w) { Seq::empty() }
     else {
         let here: Seq<(NodeIndex<Ix>, NodeIndex<Ix>, &'a Null::Wrapped)> = match adj[lin_pos(d, row, col, w)].nv() {
-            Some(v) => seq![(NodeIndex(Ix::spec_new((if rows { col } else { row }) as usize)), NodeIndex(Ix::spec_new((if rows { row } else { col }) as usize)), &v)],
+            Some(v) => seq![(NodeIndex(Ix::spec_new(row as usize)), NodeIndex(Ix::spec_new(col as usize)), &v)],   // the cell (row, col) IS the edge row -> col, whichever way the scan runs
             None => Seq::empty(),
         };
         here + (if rows { mscan::<Null, Ix>(adj, d, w, rows, row + 1, col) } else { mscan::<Null, Ix>(adj, d, w, rows, row, col + 1) })
@@ -108,7 +108,9 @@ impl<'a, Ty: EdgeType, Null: 'a + Nullable, Ix> Edges<'a, Ty, Null, Ix> {
 impl<'a, Ty: EdgeType, Null: Nullable, Ix: IndexType> Iterator for Edges<'a, Ty, Null, Ix> {
     type Item = (NodeIndex<Ix>, NodeIndex<Ix>, &'a Null::Wrapped);
 
-    fn next(&mut self) -> Option<Self::Item> {
+    fn next(&mut self) -> /*+*/(res:/*-*/ Option<Self::Item>/*+*/)
+        ensures final(self).rows() == old(self).rows()/*-*/
+    {
         use self::NeighborIterDirection::*;
 
         /*+*/proof { use_type_invariant(&*self); }/*-*/
@@ -130,18 +132,19 @@ impl<'a, Ty: EdgeType, Null: Nullable, Ix: IndexType> Iterator for Edges<'a, Ty,
             /*+*/proof { lemma_pos_canon(Ty::spec_is_directed(), row as int, column as int, self.node_capacity as int); }/*-*/
             let p = to_linearized_matrix_position::<Ty>(row, column, self.node_capacity);
             if let Some(e) = self.node_adjacencies[p].as_ref() {
-                let (a, b) = match self.iter_direction {
-                    Rows => (column, row),
-                    Columns => (row, column),
-                };
-
-                return Some((NodeIndex::new(a), NodeIndex::new(b), e));
+                // the cell (row, column) is the edge row -> column, whichever
+                // way the matrix is scanned
+                return Some((NodeIndex::new(row), NodeIndex::new(column), e));
             }
         }
     }
 }
 //@ end
 
+/// the far ends of a scan: targets of a row scan, sources of a column scan
+pub open spec fn far_ends<'a, Null: Nullable, Ix: IndexType>(s: Seq<(NodeIndex<Ix>, NodeIndex<Ix>, &'a Null::Wrapped)>, rows: bool) -> Seq<NodeIndex<Ix>> {
+    Seq::new(s.len(), |i: int| if rows { s[i].0 } else { s[i].1 })
+}
 //@ item src/matrix_graph.rs | - | struct Neighbors
 /// Iterator over the neighbors of a node.
 pub struct Neighbors<'a, Ty: EdgeType, Null: 'a + Nullable, Ix>(pub Edges<'a, Ty, Null, Ix>);
@@ -149,7 +152,8 @@ pub struct Neighbors<'a, Ty: EdgeType, Null: 'a + Nullable, Ix>(pub Edges<'a, Ty
 
 impl<'a, Ty: EdgeType, Null: 'a + Nullable, Ix: IndexType> vstd::std_specs::iter::IteratorSpecImpl for Neighbors<'a, Ty, Null, Ix> {
     open spec fn obeys_prophetic_iter_laws(&self) -> bool { true }
-    open spec fn remaining(&self) -> Seq<NodeIndex<Ix>> { Seq::new(self.0.rem().len(), |i: int| self.0.rem()[i].1) }
+    /// the far end of every remaining edge: the target when a row is scanned, the source when a column is scanned
+    open spec fn remaining(&self) -> Seq<NodeIndex<Ix>> { far_ends::<Null, Ix>(self.0.rem(), self.0.rows()) }
     open spec fn decrease(&self) -> Option<nat> { Some(self.0.left()) }
     open spec fn will_return_none(&self) -> bool { true }
     open spec fn peek(&self, i: int) -> Option<NodeIndex<Ix>> { None }
@@ -160,9 +164,17 @@ impl<Ty: EdgeType, Null: Nullable, Ix: IndexType> Iterator for Neighbors<'_, Ty,
     type Item = NodeIndex<Ix>;
 
     fn next(&mut self) -> Option<Self::Item> {
-        /*+*/let ghost r0 = self.0.rem();
-        let r = {/*-*/ self.0.next().map(|/*R:D10 (_, b, _) */ __t: (NodeIndex<Ix>, NodeIndex<Ix>, &Null::Wrapped) /*-*/| /*+*/-> (x: NodeIndex<Ix>) ensures x == __t.1 { let (_a, b, _w) = __t;/*-*/ b /*+*/}/*-*/) /*+*/};
-        proof { if r is Some { assert(r0 =~= seq![r0[0]] + self.0.rem()); assert(Seq::new(r0.len(), |i: int| r0[i].1) =~= seq![r.unwrap()] + Seq::new(self.0.rem().len(), |i: int| self.0.rem()[i].1)); } else { assert(r0.len() == 0); } }
+        // the neighbor is the far end of the edge: its target when a row is
+        // scanned along its columns, its source when a column is scanned
+        // along its rows
+        /*+*/let ghost r0 = self.0.rem(); let ghost rows = self.0.rows();
+        /*-*/
+        let iter_direction = self.0.iter_direction;
+        /*+*/let r = {/*-*/ self.0.next().map(|/*R:D10 (a, b, _) */ __t: (NodeIndex<Ix>, NodeIndex<Ix>, &Null::Wrapped) /*-*/| /*+*/-> (x: NodeIndex<Ix>) ensures x == (if rows { __t.0 } else { __t.1 }) { let (a, b, _w) = __t;/*-*/ match iter_direction {
+            NeighborIterDirection::Rows => a,
+            NeighborIterDirection::Columns => b,
+        } /*+*/}/*-*/) /*+*/};
+        proof { if r is Some { assert(r0 =~= seq![r0[0]] + self.0.rem()); assert(far_ends::<Null, Ix>(r0, rows) =~= seq![r.unwrap()] + far_ends::<Null, Ix>(self.0.rem(), rows)); } else { assert(r0.len() == 0); } }
         r/*-*/
     }
     /*+*/#[verifier::external_body]/*-*/
@@ -216,7 +228,7 @@ impl<N, E, S: BuildHasher, Ty: EdgeType, Null: Nullable<Wrapped = E>, Ix: IndexT
     /// Return an iterator of all nodes with an edge starting from `a`.
     pub fn neighbors(&self, a: NodeIndex<Ix>) -> (r: Neighbors<Ty, Null, Ix>)
         /*+*/requires self.wf()
-        ensures r.0.rem() == mscan::<Null, Ix>(self.node_adjacencies@, self.d(), self.cap(), false, a.i(), 0)/*-*/   // [neighbors_is_row_scan] see lemma_mscan_columns
+        ensures !r.0.rows(), r.0.rem() == mscan::<Null, Ix>(self.node_adjacencies@, self.d(), self.cap(), false, a.i(), 0)/*-*/   // [neighbors_is_row_scan] see lemma_mscan_columns
     {
         Neighbors(Edges::on_columns(
             a.index(),
@@ -230,7 +242,7 @@ impl<N, E, S: BuildHasher, Ty: EdgeType, Null: Nullable<Wrapped = E>, Ix: IndexT
     /// Return an iterator of all edges of `a`.
     pub fn edges(&self, a: NodeIndex<Ix>) -> (r: Edges<Ty, Null, Ix>)
         /*+*/requires self.wf()
-        ensures r.rem() == mscan::<Null, Ix>(self.node_adjacencies@, self.d(), self.cap(), false, a.i(), 0),     // [edges_is_row_scan]
+        ensures !r.rows(), r.rem() == mscan::<Null, Ix>(self.node_adjacencies@, self.d(), self.cap(), false, a.i(), 0),     // [edges_is_row_scan]
             // i.e. exactly the occupied cells (a, b), ascending in b, each with its weight                              [edges_exactly_the_edges_at_a]
             ({ let cs = mcols(self.node_adjacencies@, self.d(), self.cap(), a.i(), 0);
                &&& r.rem().len() == cs.len()
@@ -255,7 +267,8 @@ impl<N, E, S: BuildHasher, Null: Nullable<Wrapped = E>, Ix: IndexType>
         d: Direction,
     ) -> (r: Neighbors<Directed, Null, Ix>)
         /*+*/requires self.wf()
-        ensures r.0.rem() == (if d == Direction::Outgoing { mscan::<Null, Ix>(self.node_adjacencies@, true, self.cap(), false, a.i(), 0) }
+        ensures r.0.rows() == (d != Direction::Outgoing),
+            r.0.rem() == (if d == Direction::Outgoing { mscan::<Null, Ix>(self.node_adjacencies@, true, self.cap(), false, a.i(), 0) }
                               else { mscan::<Null, Ix>(self.node_adjacencies@, true, self.cap(), true, 0, a.i()) })/*-*/   // [neighbors_directed_scans_row_or_column]
     {
         if d == Outgoing {
@@ -274,7 +287,8 @@ impl<N, E, S: BuildHasher, Null: Nullable<Wrapped = E>, Ix: IndexType>
     /// Return an iterator of all edges of `a`, in the specified direction.
     pub fn edges_directed(&self, a: NodeIndex<Ix>, d: Direction) -> (r: Edges<Directed, Null, Ix>)
         /*+*/requires self.wf()
-        ensures r.rem() == (if d == Direction::Outgoing { mscan::<Null, Ix>(self.node_adjacencies@, true, self.cap(), false, a.i(), 0) }
+        ensures r.rows() == (d != Direction::Outgoing),
+            r.rem() == (if d == Direction::Outgoing { mscan::<Null, Ix>(self.node_adjacencies@, true, self.cap(), false, a.i(), 0) }
                             else { mscan::<Null, Ix>(self.node_adjacencies@, true, self.cap(), true, 0, a.i()) })/*-*/     // [edges_directed_scans_row_or_column]
     {
         if d == Outgoing {
